@@ -173,6 +173,9 @@ def malformed_cases(r: Run, wf):
             "C[13]x", "C[+13]", "C[-1]", "C(", "C2(", "C[13](", "e*", "e*1", "c", "h2o", "C²", "C[²]", "C٣", "(C)²",
             # an isotope bracket whose number does not parse, FOLLOWED by a count (the bracket is read when the
             # count is flushed: mid-string and at the end of input)
+            # what may follow a completed term is an upper-case letter or '(' — at each of the four sites (after a count,
+            # after a bracket, after a group, after a group count); the table DOES hold a lower-case key, e*
+            "C2e*", "C[13]e*", "(C)e*", "(C)2e*", "C2h", "C[13]h", "(C)h", "(C)2h", "(C)é", "C2é", "(C)2é", "C[13]é",
             "C[99999]2", "C[99999]2H", "C[65536]1O2", "C[²]2", "C[²]2O", "(C[99999]2)3", "C[٣]4", "O2C[70000]3",
             "(" * 3000 + "C", "(" * 1500 + ")" * 1500, "C" * 5000, "(C)" * 1000, "((" * 800 + "C" + "))" * 800 + "x"]
     return out
